@@ -4,6 +4,7 @@ package main
 
 import (
 	"encoding/json"
+	"path/filepath"
 	"regexp"
 
 	"github.com/mimecast/dtail/internal/config"
@@ -41,6 +42,13 @@ func init() {
 			}
 			tab[p] = [2]bool{true, re.MatchString(c.Resolved)}
 		}
-		return map[string]interface{}{"allowed": allowed, "tab": tab}, nil
+		// what HasFilePermission resolves the request to (EvalSymlinks, then Abs), for the path-resolution model
+		goResolved := ""
+		if r, err := filepath.EvalSymlinks(c.Path); err == nil {
+			if a, err := filepath.Abs(r); err == nil {
+				goResolved = a
+			}
+		}
+		return map[string]interface{}{"allowed": allowed, "tab": tab, "go_resolved": goResolved}, nil
 	}
 }
